@@ -714,6 +714,10 @@ protected:
     {
         size_type   i = 0;
 
+        // True when this function, rather than the writer, has
+        // closed the section, to write a character reference.
+        bool    closedForCharRef = false;
+
         while(i < length)
         {
             // If "]]>", which would close the CDATA appears in
@@ -724,15 +728,18 @@ protected:
             const XalanDOMChar  theChar = chars[i];
 
             if (theChar == XalanUnicode::charRightSquareBracket &&
-                i - length > 2 &&
+                length - i > 2 &&
                 XalanUnicode::charRightSquareBracket == chars[i + 1] &&
                 XalanUnicode::charGreaterThanSign == chars[i + 2])
             {
                 if (outsideCDATA == true)
                 {
+                    // We're not in a section, because the previous
+                    // character had to be written as a character
+                    // reference, so open one.
                     m_writer.write(
-                        m_constants.s_cdataCloseString,
-                        m_constants.s_cdataCloseStringLength);
+                        m_constants.s_cdataOpenString,
+                        m_constants.s_cdataOpenStringLength);
                 }
 
                 m_writer.write(value_type(XalanUnicode::charRightSquareBracket));
@@ -749,6 +756,7 @@ protected:
                 m_writer.write(value_type(XalanUnicode::charGreaterThanSign));
 
                 outsideCDATA = false;
+                closedForCharRef = false;
 
                 i += 2;
             }
@@ -758,15 +766,49 @@ protected:
                 {
                     outputNewline();
                 }
-                else if(m_charPredicate.isCharRefForbidden(theChar))
+                else if(m_charPredicate.isForbidden(theChar))
                 {
                      throwInvalidXMLCharacterException(
                             theChar,
                             m_version,
                             getMemoryManager());
                 }
+                else if (XalanUnicode::charCR == theChar ||
+                         (XMLVersion == XML_VERSION_1_1 &&
+                            (XalanUnicode::charNEL == theChar ||
+                             XalanUnicode::charLSEP == theChar)) ||
+                         m_charPredicate.isCharRefForbidden(theChar))
+                {
+                    // A parser would turn a CR, NEL or LSEP into a line feed,
+                    // and the control characters XML 1.1 allows must be written
+                    // as character references.  There's no way to escape a
+                    // character in a CDATA section, so write it as a character
+                    // reference outside of one.
+                    if (outsideCDATA == false)
+                    {
+                        m_writer.write(
+                            m_constants.s_cdataCloseString,
+                            m_constants.s_cdataCloseStringLength);
+
+                        outsideCDATA = true;
+                        closedForCharRef = true;
+                    }
+
+                    writeNumericCharacterReference(theChar);
+                }
                 else
                 {
+                    if (closedForCharRef == true)
+                    {
+                        // Not every writer opens the section again...
+                        m_writer.write(
+                            m_constants.s_cdataOpenString,
+                            m_constants.s_cdataOpenStringLength);
+
+                        outsideCDATA = false;
+                        closedForCharRef = false;
+                    }
+
                     i = m_writer.writeCDATAChar(chars, i, length, outsideCDATA);
                 }
             }
@@ -774,12 +816,9 @@ protected:
             ++i;
         }
 
-        if(outsideCDATA == true)
-        {
-            m_writer.write(
-                m_constants.s_cdataOpenString,
-                m_constants.s_cdataOpenStringLength);
-        }
+        // If we're outside of a section now, leave it that
+        // way.  The caller only closes the section if we're
+        // still in it.
     }
 
 
